@@ -41,6 +41,15 @@ Definition cond_revloop (n : node) : bool :=
   | _ => false
   end.
 
+(** what may be reported at most: also a negated number literal as the end (its value is <= 0) *)
+Definition cond_revloop_wide (n : node) : bool :=
+  cond_revloop n ||
+  match n with
+  | NStmt (SNumericFor _ (EUnop o _) (EUnop m (ENumber raw)) OENone _) =>
+      str_eqb o "#" && str_eqb m "-" && match lua_value raw with Some _ => true | None => false end
+  | _ => false
+  end.
+
 (** the zero / one spelled canonically *)
 Lemma value_is_zero_denotes e : value_is_zero e = true -> denotes_zero e = true.
 Proof.
